@@ -335,3 +335,105 @@ def r7(ctx):
             ctx.require(ok, b, 'save-before-ok', 'Ok(()) at line %d is returned only after the table was saved' % b.blocks[blk].term.span['line'],
                         'train_bpe returns Ok(()) at line %d without writing the merge table: the output file is missing or still holds the table of an earlier run' % b.blocks[blk].term.span['line'],
                         b.blocks[blk].term.span)
+
+
+@rule('C19', 'R-C19-8', 'T13 PAIR (applying a merge to the word table)',
+      'replace_pair_in_word copies every symbol of the word, in order, or -- exactly when the previous output symbol is pair.first and the '
+      'symbol is pair.second -- appends it to the previous output symbol (left-to-right, non-overlapping merge; nothing dropped); '
+      'replace_pair rewrites vocab[idx] with that result, keeps the frequency, and records (idx, old word, new word, freq) for every word '
+      'whose recorded occurrence count is >= 1 -- the change list update_stats consumes')
+def r8(ctx):
+    from rules.common import iteration_table, full_traversal
+    w = ctx.body(T + 'replace_pair_in_word')
+    if full_traversal(ctx, w, ('arg', 1, ANY), 'merge-visits-all', 'replace_pair_in_word') < 1:
+        raise AnchorMissing('the symbol loop of replace_pair_in_word')
+    lps = cfg.loops(w)
+    if len(lps) != 1:
+        raise AnchorMissing('one loop in replace_pair_in_word (found %d)' % len(lps))
+    nx = [t for t in w.calls(r'::next$') if t.bb in lps[0].blocks]
+    item = ('unwrap', nosite(sym(w, nx[0].dest)))
+    is_item = Pred(lambda u: nosite(core(u)) == nosite(core(item)))
+    rows = iteration_table(w, lps[0], {})
+    if not rows:
+        raise AnchorMissing('iteration paths of replace_pair_in_word')
+    kinds = set()
+    for row in rows:
+        pushes = [(t, a) for t, a in row['calls'] if (t.callee_res() or '').endswith('Vec::push')]
+        exts = [(t, a) for t, a in row['calls'] if re.search(r'Vec::extend$|Extend>::extend$|extend_from_slice$|Vec::append$', t.callee_res() or '')]
+        atoms = [(core(t), pol) for t, pol in row['atoms']]
+        if len(pushes) == 1 and not exts:
+            kinds.add('copy')
+            ctx.require(match(core(pushes[0][1][1]), is_item), w, 'copy-symbol', 'a symbol that is not merged is copied unchanged', 'the symbol pushed is %s' % show_in(w, pushes[0][1][1])[:80],
+                        pushes[0][0].span)
+        elif len(exts) == 1 and not pushes:
+            kinds.add('merge')
+            eqs = [t for t, pol in atoms if pol is True and ((t[0] == 'bin' and t[1] == 'Eq') or (t[0] == 'call' and t[1].endswith('::eq')))]
+            sides = [(t[2], t[3]) if t[0] == 'bin' else (t[2][0], t[2][1]) for t in eqs]
+            first = any(has(a, Call('last_mut', ANY)) and match(core(b_), ('field', ('arg', 2, ANY), 'first')) or
+                        has(b_, Call('last_mut', ANY)) and match(core(a), ('field', ('arg', 2, ANY), 'first')) for a, b_ in sides)
+            second = any(match(core(a), is_item) and match(core(b_), ('field', ('arg', 2, ANY), 'second')) or
+                         match(core(b_), is_item) and match(core(a), ('field', ('arg', 2, ANY), 'second')) for a, b_ in sides)
+            ctx.require(first and second and has(exts[0][1][0], Call('last_mut', ANY)) and match(core(exts[0][1][1]), is_item), w, 'merge-condition',
+                        'a symbol is appended to the previous output symbol exactly under last == pair.first && symbol == pair.second',
+                        'a symbol is merged into the previous one under %s' % [('' if pol else '!') + show_in(w, t)[:50] for t, pol in atoms], exts[0][0].span)
+        else:
+            ctx.fail(w, 'symbol-lost', 'an iteration of replace_pair_in_word performs %d pushes and %d merges: a symbol is dropped or duplicated' % (len(pushes), len(exts)),
+                     w.blocks[lps[0].header].term.span)
+    ctx.require(kinds == {'copy', 'merge'}, w, 'merge-kinds', 'symbols are either copied or merged into their predecessor', 'iteration kinds: %s' % sorted(kinds))
+    rv = ret_values(w)
+    pushes = [t for t in w.calls(r'Vec::push$')]
+    ctx.require(len(rv) == 1 and pushes and core(rv[0][0]) == core(sym(w, pushes[0].args[0])), w, 'merge-result', 'the new word is returned', None)
+    # replace_pair
+    r = ctx.body(T + 'replace_pair')
+    lp = cfg.loops(r)
+    if len(lp) != 1:
+        raise AnchorMissing('the loop of replace_pair')
+    nxr = [t for t in r.calls(r'::next$') if t.bb in lp[0].blocks]
+    src = core(loop_source(r, nxr[0]))
+    ctx.require(has(src, ('field', Call('index', ('arg', 3, ANY), ('arg', 2, ANY)), 'words')) or has(src, ('field', ('index', ('arg', 3, ANY), ('arg', 2, ANY)), 'words')), r, 'words-of-pair', 'replace_pair visits the words recorded for the pair (stats[pair].words)',
+                'replace_pair iterates %s' % show_in(r, src)[:80])
+    it = ('unwrap', nosite(sym(r, nxr[0].dest)))
+    IDX = Pred(lambda u: nosite(core(u)) == nosite(core(('field', it, 0))))
+    WORD = ('field', ('index', ('arg', 1, ANY), IDX), 0)
+    FREQ = ('field', ('index', ('arg', 1, ANY), IDX), 1)
+    NEW = Call(T + 'replace_pair_in_word', WORD, ('arg', 2, ANY))
+    rows = iteration_table(r, lp[0], {}) or []
+    work = skip = 0
+    swapped = False
+    for row in rows:
+        ps = [(t, a) for t, a in row['calls'] if (t.callee_res() or '').endswith('Vec::push')]
+        if not ps:
+            skip += 1
+            def zero(t, pol):
+                # "the count is 0" in any spelling: occ < 1, occ <= 0, occ == 0, 1 > occ, !(occ >= 1), !(1 <= occ), ..
+                c = core(t)
+                if pol is None or c[0] != 'bin' or c[1] not in ('Lt', 'Le', 'Gt', 'Ge', 'Eq', 'Ne'):
+                    return False
+                op = c[1] if pol else {'Lt': 'Ge', 'Ge': 'Lt', 'Le': 'Gt', 'Gt': 'Le', 'Eq': 'Ne', 'Ne': 'Eq'}[c[1]]
+                a, b_ = core(c[2]), core(c[3])
+                if a[0] == 'const':
+                    a, b_ = b_, a
+                    op = {'Lt': 'Gt', 'Gt': 'Lt', 'Le': 'Ge', 'Ge': 'Le'}.get(op, op)
+                k = b_[2] if b_[0] == 'const' and len(b_) > 2 else None
+                return (op == 'Lt' and k == 1) or (op == 'Le' and k == 0) or (op == 'Eq' and k == 0)
+            ok = any(zero(t, pol) for t, pol in row['atoms'])
+            ctx.require(ok, r, 'skip-dead-words', 'a word is skipped only when its recorded occurrence count is 0', 'a word is skipped under %s' % [
+                ('' if pol else '!') + show_in(r, t)[:50] for t, pol in row['atoms']])
+            continue
+        work += 1
+        v = peel(ps[0][1][1])
+        # the old word: a copy of vocab[idx].0, or what `mem::replace(&mut vocab[idx].0, new_word)` hands back (which also does the update)
+        SWAP = Call('mem::replace', WORD, NEW)
+        ok = len(ps) == 1 and v[0] == 'agg' and v[1] == 'tuple' and len(v[3]) == 4 and match(core(v[3][0]), IDX) and \
+            (match(core(v[3][1]), WORD) or match(core(v[3][1]), SWAP)) and match(core(v[3][2]), NEW) and match(core(v[3][3]), FREQ)
+        if ok and match(core(v[3][1]), SWAP):
+            swapped = True
+        ctx.require(ok, r, 'change-record', 'the change record is (idx, old word, new word, freq)', 'the change record is %s' % show_in(r, ps[0][1][1])[:160], ps[0][0].span)
+    ctx.require(work >= 1 and skip >= 1, r, 'replace-paths', 'replace_pair has a working and a skipping path', 'paths: %d working, %d skipping' % (work, skip))
+    st = [s_ for s_ in r.stmts() if s_.kind == 'assign' and s_.lhs.proj and s_.bb in lp[0].blocks and match(core(sym(r, s_.lhs)), ('index', ('arg', 1, ANY), IDX))]
+    ok = len(st) == 1
+    if ok:
+        from analysis.sym import symbolizer, simplify
+        v = peel(simplify(symbolizer(r).rvalue(st[0].rv, 0, ())))
+        ok = v[0] == 'agg' and v[1] == 'tuple' and len(v[3]) == 2 and match(core(v[3][0]), NEW) and match(core(v[3][1]), FREQ)
+    ctx.require(ok or (swapped and not st), r, 'vocab-update', 'vocab[idx] := (replace_pair_in_word(word, pair), same freq)', None, st[0].span if st else None)
